@@ -188,7 +188,9 @@ pub fn spell_line(ln: &Value, rng: &mut Rng) -> String {
                     }
                 })
                 .collect();
-            extras.push(ns.join("|"));
+            // an EMPTY field is an absent list, not a list with one unparsable entry
+            let joined = ns.join("|");
+            extras.push(if joined.is_empty() && !ns.is_empty() { "x".to_string() } else { joined });
             let nb: Vec<String> = geta(ln, "nbank").iter().map(|b| spell_bi(b, rng)).collect();
             extras.push(nb.join("|"));
             extras.push(bi);
